@@ -22,7 +22,13 @@ PROPS["C14"] = dict(
           "always the first op of a process so that the first touch is concurrent): ONE shared instance, ellipsoid parameters / inputs / masks from the seed "
           "(WGS84, f = 0, 0.1, 1/150, 1/297, prolate; 3/4, -2, 9/10 in the eccentric suites), 4–8 threads (4–16 thorough) started behind a barrier, 2–8 iterations over every const API (rotated "
           "order, half of the threads start with the same call), concurrent phase BEFORE any solo use. non-trivial = an op whose calls returned values; "
-          "distinct = distinct (class, threads, iterations, seed)"),
+          "distinct = distinct (class, threads, iterations, seed). Further suites: GeodesicProjections (AzimuthalEquidistant, CassiniSoldner, Gnomonic on shared series/exact "
+          "solvers), PolygonArea (const Compute/TestPoint/TestEdge on shared PolygonArea/PolygonAreaExact/PolygonAreaRhumb, polygon and polyline), DST (5-smooth sizes), Accumulator "
+          "(const operators). Op fu <class> (every class, 3 per class quick / 12 thorough): a FRESH shared instance per op, all threads leave a spin barrier and make the SAME first "
+          "call at once, then the next call; results compared with a fresh equal object that was never shared. Op mtc <class> (every class): the mt schedule while two more threads "
+          "construct and destroy objects of every class (solvers, projections, harmonic models from files, Geoid, DST, PolygonArea, GeoCoords, Intersect, NearestNeighbor; the harmonic "
+          "square-root table is established with RootTable first, its growth being a documented exclusion). Stratum DST(generic)/outside-quantifier: a shared DST whose FFT length has a "
+          "prime factor > 5 (open finding F95)"),
     tolerances={"concurrent vs solo results": "bit-for-bit (doubles, ints, strings, thrown-or-not)", "shared vs fresh equal object": "bit-for-bit",
                 "object representation of trivially copyable shared objects before/after the concurrent const calls": "identical bytes",
                 "data races": "none reported by ThreadSanitizer on the schedules that occurred"},
@@ -36,6 +42,15 @@ PROPS["C14"] = dict(
                 "documented exclusions and fill-on-miss caches with a prefill certificate), statics_const_or_excluded, auxlat_prefill_covers (both AuxLatitude "
                 "constructors fill every coefficient block Convert/DConvert can demand), geoid_threadsafe_guarded, fft_sizes_smooth (every FFT size reachable "
                 "from GeodesicExact is 5-smooth, so kissfft's generic butterfly, the only user of its mutable scratch buffer, is not reached), no_const_cast. "
+                "Extraction-side obligations (the extraction covers src/*.cpp plus one unit that includes EVERY public header and instantiates the class templates, so header-only classes "
+                "such as NearestNeighbor and SphericalHarmonic2 are in the table): mutable_text_scan_accounted / mutable_members_match_text_scan (a clang-independent text scan of all 91 files "
+                "for the keyword mutable agrees with the AST walk), no_const_cast_text, local_statics_immutable (every function-local static is const, has no non-const pointee and is "
+                "initialised where declared: constant or C++11-guarded), statics_written_only_by_excluded (over EVERY function body incl. constructors, non-const members and free functions, "
+                "constructor calls followed), no_write_through_pointer_members + pointer_members_accounted (no assignment / non-const call / non-const hand-over through a pointer, reference, "
+                "iterator or smart-pointer member inside const member functions; all such members point to const except DST::_fft), ctor_static_state_covered (every class whose constructors "
+                "touch static state is constructed by the background threads of the mtc ops and writes only excluded state), sqrttable_readers_are_harmonic, exclusions_are_seen. "
+                "The NearestNeighbor exclusion is now the six statistics members by name; Intersect, NearestNeighbor, PolygonAreaT, AzimuthalEquidistant, CassiniSoldner, Gnomonic are in the "
+                "table obligation (effects_disjoint) with only their documented counters excluded. "
                 "Correspondence: the table is validated against the running code with ThreadSanitizer and by bit-for-bit comparison of every concurrent "
                 "result with the solo result of the very same call on the same object; the code that depends on the DST size (FFT length, radices, any work "
                 "space) is exercised by area computations on shared exact solvers with f = 3/4, -2, 9/10 (N = 48, 48, 96), both GeodesicExact and "
@@ -46,6 +61,7 @@ PROPS["C14"] = dict(
     technique="Lean 4 non-interference proof over an effect table extracted from the current sources + ThreadSanitizer / bit-for-bit concurrent-vs-solo correspondence",
     assumptions=["C++11 guarantees for function-local statics ([stmt.dcl]/4) and that const member functions of standard containers are data-race free ([res.on.data.races])",
                  "immutable (non-mutable, non-static) members cannot be written by const member functions in the absence of const_cast (checked: no const_cast in the library)",
-                 "the extractor over-approximates writes through tracked locations; writes through raw pointer members are covered by the TSan run only"],
+                 "the extractor over-approximates writes through tracked locations; writes through pointer-like members inside const member functions are extracted syntactically (assignment, increment, non-const call, non-const hand-over) and otherwise covered by the TSan run only",
+                 "excluded by the property text and therefore not alarms: NearestNeighbor::Search (const) updating the statistics _mc,_sc,_c1,_k,_cmin,_cmax; Intersect's _cnt0.._cnt4; growth of SphericalEngine's square-root table when a model of higher degree is constructed while another thread evaluates a harmonic sum (SphericalEngine.hpp prescribes RootTable(N) at start-up; the mtc suites do that)"],
     trusted_extra=["tools/effects.py (clang++-14 JSON AST walk; unverified) and ThreadSanitizer (clang 14 runtime) for the correspondence of C14"],
 )
